@@ -63,3 +63,47 @@ Theorem C14_fill_rect_routes_total_partial : forall st x y w h src o,
     fill_rect st x y w h src o = Ok stF /\ fill st (rect_path x y w h) src o = Ok stG /\ d_buf stF = d_buf stG.
 Proof. exact fill_rect_routes_total. Qed.
 Print Assumptions C14_fill_rect_routes_total_partial.
+
+(* ---- negative sizes, covering clips, clear (UserSpace.v) ---- *)
+Require Import RQ.UserSpace.
+
+(* (7) any signs of width and height (non-zero): the fast route fills the rectangle between the two corners, the path
+   route a rectangle path of the opposite orientation - same pixels, all 28 blend modes, antialias on or off *)
+Theorem C14_fill_rect_negative_size_agree_partial : forall st x y w h src o stF stG,
+  plain_dt st -> Forall px_ok (d_buf st) -> source_ok src ->
+  d_ctm st = xf_identity -> 0 <= d_w st -> 0 < d_h st ->
+  rz (d_cur st) = rast_new (d_w st) (d_h st) ->
+  let ix := to_i32 x in let iy := to_i32 y in let iw := to_i32 w in let ih := to_i32 h in
+  iw <> 0 -> ih <> 0 ->
+  Z.abs ix < 4194304 -> Z.abs iy < 4194304 -> Z.abs iw < 16777216 -> Z.abs ih < 16777216 ->
+  Z.abs (ix + iw) < 4194304 -> Z.abs (iy + ih) < 4194304 ->
+  fill_rect st x y w h src o = Ok stF ->
+  fill st (rect_path x y w h) src o = Ok stG ->
+  d_buf stF = d_buf stG.
+Proof. exact fill_rect_negative_size_agree. Qed.
+Print Assumptions C14_fill_rect_negative_size_agree_partial.
+
+(* (8) "the same call gives identical pixels whether or not a surface-covering clip rectangle is pushed" *)
+Theorem C14_fill_rect_covering_clip_agree_partial : forall st R x y w h src o stF stC,
+  plain_dt st -> Forall px_ok (d_buf st) -> source_ok src ->
+  d_ctm st = xf_identity -> 0 <= d_w st -> 0 < d_h st ->
+  rz (d_cur st) = rast_new (d_w st) (d_h st) -> covers_surface st R ->
+  let ix := to_i32 x in let iy := to_i32 y in let iw := to_i32 w in let ih := to_i32 h in
+  iw <> 0 -> ih <> 0 ->
+  Z.abs ix < 4194304 -> Z.abs iy < 4194304 -> Z.abs iw < 16777216 -> Z.abs ih < 16777216 ->
+  Z.abs (ix + iw) < 4194304 -> Z.abs (iy + ih) < 4194304 ->
+  fill_rect st x y w h src o = Ok stF ->
+  fill_rect (push_clip_rect st R) x y w h src o = Ok stC ->
+  d_buf stF = d_buf stC /\ d_clips stC = d_clips (push_clip_rect st R).
+Proof. exact fill_rect_covering_clip_agree. Qed.
+Print Assumptions C14_fill_rect_covering_clip_agree_partial.
+
+(* (9) "clear(c) with an empty clip stack equals clear(c) under a surface-covering clip": both give a buffer of all c *)
+Theorem C14_clear_routes_agree_full_partial : forall st R c a b,
+  plain_dt st -> Forall px_ok (d_buf st) -> wf_px c ->
+  0 < d_w st < 4194304 -> 0 < d_h st < 4194304 ->
+  rz (d_cur st) = rast_new (d_w st) (d_h st) -> covers_surface st R ->
+  clear st c = Ok a -> clear (push_clip_rect st R) c = Ok b ->
+  d_buf a = d_buf b /\ d_buf a = map (fun _ => c) (d_buf st) /\ d_ctm b = d_ctm st.
+Proof. exact clear_routes_agree_full. Qed.
+Print Assumptions C14_clear_routes_agree_full_partial.
